@@ -477,6 +477,72 @@ def e2e(binpath, seed, n):
     return res
 
 
+def inspection_references(binpath, seed):
+    """an inspection's rules may refer to any other item of the layout, also to an inspection listed after it: rules are
+    applied when all inspections have run (every referenced link exists), exactly as for items listed before"""
+    W = scen.World(binpath)
+    res = common.Result()
+    work = {"foo": CONTENT[1], "bar": CONTENT[2]}
+    base_link = {"foo": dg(1), "bar": dg(2)}
+    templates = [
+        [["MATCH", "foo", "WITH", "MATERIALS", "FROM", "OTHER"], ["ALLOW", "bar"], ["DISALLOW", "*"]],
+        [["MATCH", "foo", "WITH", "MATERIALS", "FROM", "OTHER"], ["REQUIRE", "foo"], ["ALLOW", "*"]],
+        [["MATCH", "foo", "WITH", "PRODUCTS", "FROM", "OTHER"], ["MATCH", "bar", "WITH", "MATERIALS", "FROM", "OTHER"], ["DISALLOW", "*"]],
+        [["MATCH", "f*", "WITH", "MATERIALS", "FROM", "OTHER"], ["DISALLOW", "foo"], ["ALLOW", "*"]],
+        [["MATCH", "nothing", "WITH", "MATERIALS", "FROM", "OTHER"], ["DISALLOW", "foo"], ["ALLOW", "*"]],
+        [["MATCH", "foo", "WITH", "MATERIALS", "FROM", "no-such-item"], ["DISALLOW", "foo"], ["ALLOW", "*"]],
+    ]
+    plans, reqs = [], []
+    for ti, tpl in enumerate(templates):
+        for side in ("expected_materials", "expected_products"):
+            for order in ("refers_to_later", "refers_to_earlier"):
+                rules = [[("second" if order == "refers_to_later" else "first") if x == "OTHER" else x for x in r] for r in tpl]
+                mine = "first" if order == "refers_to_later" else "second"
+                other = "second" if mine == "first" else "first"
+                insp = []
+                for nm in ("first", "second"):
+                    mr = rules if (nm == mine and side == "expected_materials") else [["ALLOW", "*"]]
+                    pr = rules if (nm == mine and side == "expected_products") else [["ALLOW", "*"]]
+                    insp.append(scen.mk_inspection(nm, ["sh", "-c", ":"], mr, pr))
+                steps = [scen.mk_step("ref9", 1, [W.kid("ed4")], [], [["ALLOW", "*"]], [["ALLOW", "*"]])]
+                layout = scen.mk_layout(W, ["ed4"], steps, insp)
+                # what the two inspections record: the prepared files; the second one also sees the first one's link file,
+                # which no rule here names
+                item = {"name": mine, "expected_materials": rules if side == "expected_materials" else [["ALLOW", "*"]],
+                        "expected_products": rules if side == "expected_products" else [["ALLOW", "*"]]}
+                mine_link = scen.mk_link(mine, dict(base_link), dict(base_link))
+                other_link = scen.mk_link(other, dict(base_link), dict(base_link))
+                if mine == "second":
+                    mine_link["materials"]["first.link"] = {"sha256": "00" * 32}
+                    mine_link["products"]["first.link"] = {"sha256": "00" * 32}
+                else:
+                    other_link["materials"]["first.link"] = {"sha256": "00" * 32}
+                    other_link["products"]["first.link"] = {"sha256": "00" * 32}
+                plans.append((len(reqs), order, side, ti, item, {mine: mine_link, other: other_link}))
+                reqs.append((layout, ["ed0"], "new"))
+                reqs.append((scen.mk_link("ref9", {}, {}, [], {}, None), ["ed4"], "new"))
+    wires = scen.sign_all(binpath, reqs, nproc=1)
+    cases = []
+    for b, order, side, ti, item, links in plans:
+        cases.append(scen.verify_case(wires[b], [[W.kid("ed0"), W.pub("ed0")]], {f"ref9.{W.pfx('ed4')}.link": scen.dumps(wires[b + 1])}, work_files=work,
+                                      meta={"order": order, "side": side, "template": ti, "item": item, "links": links}))
+    obs = common.run_batch(binpath, cases)
+    for c, o in zip(cases, obs):
+        m = c["meta"]
+        if scen.harness_failed(o):
+            res.inconclusive.append(f"executor failure: {str(o)[:200]}")
+            continue
+        want = rulemodel.decide(m["item"], m["links"])
+        got = o["runs"][0]["v"] == "ok"
+        res.note([c["layout"]], True, cls=[f"inspection_reference:{m['order']}", "inspection_reference:reference_" + ("accept" if want else "reject")])
+        if got != want:
+            res.violate(f"e2e-rule-decision-differs:inspection_{m['order']}:{'accepts' if got else 'rejects'}",
+                        f"end-to-end verification {'accepts' if got else 'rejects'} where the specification's algorithm {'accepts' if want else 'rejects'}: the "
+                        f"{m['side']} of an inspection that {m['order'].replace('_', ' ')} inspection are {m['item'][m['side']]} ({o['runs'][0].get('e')})",
+                        c, o, "accept" if want else "reject")
+    return res
+
+
 def replay(ctx, case, res):
     if case.get("op") == "rules":
         o = common.run_batch(ctx.bin, [case], keys=False)[0]
@@ -505,6 +571,7 @@ def main(ctx):
         res.merge(shard_small(ctx.bin, ctx.seed, 0, n, 0.01))
     res.merge(shard_prefix_algebra(ctx.bin))
     res.merge(e2e(ctx.bin, ctx.seed, 300 if not ctx.thorough else 5000))
+    res.merge(inspection_references(ctx.bin, ctx.seed))
     return common.finish(
         PROP, ctx.tier, ctx.seed, res, t0=ctx.t0,
         rule="random ordered rule lists (0-5 rules per side, seven kinds, 19 portable glob patterns, optional IN prefixes, "
@@ -517,6 +584,6 @@ def main(ctx):
                      "whether a pattern is uninterpretable is observed from the implementation's matcher"],
         required=["reference:accept", "reference:reject", "rule:MATCH", "rule:CREATE", "rule:DELETE", "rule:MODIFY",
                   "rule:ALLOW", "rule:REQUIRE", "rule:DISALLOW", "match:src_prefix", "match:dst_prefix",
-                  "disallow:uninterpretable_pattern", "kind:inspection", "e2e:step", "e2e:inspection", "e2e:step:built_in_memory", "e2e:inspection:built_in_memory",
+                  "disallow:uninterpretable_pattern", "kind:inspection", "e2e:step", "e2e:inspection", "e2e:step:built_in_memory", "inspection_reference:refers_to_later", "inspection_reference:reference_accept", "inspection_reference:reference_reject", "e2e:inspection:built_in_memory",
                   "e2e_reference:accept", "e2e_reference:reject", "small_scope:accept", "small_scope:reject"],
         min_evals=20000)
